@@ -1,0 +1,214 @@
+//go:build verif
+
+package immutable
+
+import (
+	"fmt"
+	"path"
+	"path/filepath"
+	"sync"
+	"time"
+
+	"github.com/openGemini/openGemini/engine/immutable/colstore"
+	"github.com/openGemini/openGemini/lib/config"
+	"github.com/openGemini/openGemini/lib/fileops"
+	"github.com/openGemini/openGemini/lib/record"
+	"github.com/openGemini/openGemini/lib/util"
+	"github.com/openGemini/openGemini/lib/util/lifted/influx/meta"
+	"github.com/openGemini/openGemini/lib/util/lifted/vm/protoparser/influx"
+)
+
+// Hook for the verification harness (/verif, property C03). Compiled only with the `verif`
+// build tag. A column-store table store on a directory, with one measurement of a fixed
+// schema: write a data file (with its primary-key index) from rows, run level compaction,
+// read every row of every file back, reopen on a copy of the directory (the start-up pass
+// over the compact-log directory and the loader run in Open).
+
+const verifCSMst = "mst"
+
+var verifCSSchema = record.Schemas{
+	{Name: "field1_float", Type: influx.Field_Type_Float},
+	{Name: "field2_int", Type: influx.Field_Type_Int},
+	{Name: "primaryKey_float1", Type: influx.Field_Type_Float},
+	{Name: "primaryKey_string1", Type: influx.Field_Type_String},
+	{Name: "sortKey_int1", Type: influx.Field_Type_Int},
+	{Name: "time", Type: influx.Field_Type_Int},
+}
+
+var verifCSPK = []string{"primaryKey_float1", "primaryKey_string1"}
+var verifCSSK = []string{"primaryKey_float1", "primaryKey_string1", "sortKey_int1"}
+
+// VerifCSRow is one row: K orders the rows (primary key and sort key derive from it), V is the
+// payload, T the timestamp.
+type VerifCSRow struct {
+	K int64
+	V int64
+	T int64
+}
+
+// VerifColStore is a column-store table store.
+type VerifColStore struct {
+	m        *MmsTables
+	conf     *Config
+	lock     string
+	tier     uint64
+	pkSchema record.Schemas
+}
+
+var verifCSOnce sync.Once
+
+// VerifOpenColStore opens (start-up pass included) the column-store table store of the shard
+// directory shardDir (its files live in shardDir/columnstore, its compact logs in
+// shardDir/compact_log).
+func VerifOpenColStore(shardDir string) (*VerifColStore, error) {
+	var pk record.Schemas
+	ident := colstore.NewMeasurementIdent("db0", "rp0")
+	ident.SetName(verifCSMst)
+	verifCSOnce.Do(func() {
+		fields := make(meta.CleanSchema)
+		for _, k := range verifCSPK {
+			for _, f := range verifCSSchema {
+				if f.Name == k {
+					fields[k] = meta.SchemaVal{Typ: int8(f.Type)}
+				}
+			}
+		}
+		mi := &meta.MeasurementInfo{
+			Name:       verifCSMst,
+			EngineType: config.COLUMNSTORE,
+			ColStoreInfo: &meta.ColStoreInfo{
+				PrimaryKey:          verifCSPK,
+				SortKey:             verifCSSK,
+				TimeClusterDuration: time.Duration(0),
+			},
+			Schema: &fields,
+		}
+		colstore.MstManagerIns().Add(ident, mi)
+	})
+	mst, ok := colstore.MstManagerIns().GetByIdent(ident)
+	if !ok {
+		return nil, fmt.Errorf("measurement info not registered")
+	}
+	pk = mst.PrimaryKey()
+	conf := NewColumnStoreConfig()
+	conf.maxRowsPerSegment = 64
+	conf.FragmentsNumPerFlush = 1
+	s := &VerifColStore{conf: conf, tier: uint64(util.Hot), pkSchema: pk}
+	dir := filepath.Join(shardDir, ColumnStoreDirName)
+	if err := fileops.MkdirAll(dir, 0750); err != nil {
+		return nil, err
+	}
+	s.m = NewTableStore(dir, &s.lock, &s.tier, true, conf)
+	s.m.SetDbRp("db0", "rp0")
+	s.m.SetImmTableType(config.COLUMNSTORE)
+	s.m.CompactionEnable()
+	if _, err := s.m.Open(nil); err != nil {
+		return nil, err
+	}
+	return s, nil
+}
+
+func verifCSRecord(rows []VerifCSRow) *record.Record {
+	b := record.NewRecordBuilder(verifCSSchema)
+	for _, r := range rows {
+		b.Column(0).AppendFloat(float64(r.V))
+		b.Column(1).AppendInteger(r.V)
+		b.Column(2).AppendFloat(float64(r.K))
+		b.Column(3).AppendString(fmt.Sprintf("k%08d", r.K))
+		b.Column(4).AppendInteger(r.K)
+		b.Column(5).AppendInteger(r.T)
+	}
+	return b
+}
+
+// AddFile writes one level-0 data file with its primary-key index from rows (ascending K) and
+// adds it to the store, the way a flush does.
+func (s *VerifColStore) AddFile(rows []VerifCSRow) error {
+	rec := verifCSRecord(rows)
+	fileName := NewTSSPFileName(s.m.NextSequence(), 0, 0, 0, true, &s.lock)
+	msb := NewMsBuilder(s.m.path, verifCSMst, &s.lock, s.conf, 1, fileName, s.m.Tier(), nil, 2, config.TSSTORE, nil, 0)
+	msb.NewPKIndexWriter()
+	if err := msb.WriteData(0, rec); err != nil {
+		return err
+	}
+	dataFilePath := msb.FileName.String()
+	indexFilePath := path.Join(msb.Path, msb.msName, colstore.AppendPKIndexSuffix(dataFilePath))
+	fixRowsPerSegment := GenFixRowsPerSegment(rec, s.conf.maxRowsPerSegment)
+	if err := msb.WritePrimaryIndex(rec, s.pkSchema, indexFilePath, *msb.lock, colstore.DefaultTCLocation, fixRowsPerSegment, util.DefaultMaxRowsPerSegment4ColStore); err != nil {
+		return err
+	}
+	f, err := msb.NewTSSPFile(false)
+	if err != nil {
+		return err
+	}
+	if f != nil {
+		msb.Files = append(msb.Files, f)
+	}
+	if err = RenameTmpFiles(msb.Files); err != nil {
+		return err
+	}
+	s.m.AddTSSPFiles(msb.Name(), false, msb.Files...)
+	if msb.GetPKInfoNum() == len(msb.Files) {
+		for i, file := range msb.Files {
+			file.SetPkInfo(colstore.NewPKInfo(msb.GetPKRecord(i), msb.GetPKMark(i), colstore.DefaultTCLocation))
+		}
+	}
+	return nil
+}
+
+// LevelCompact plans and runs level compaction for one level and waits for it.
+func (s *VerifColStore) LevelCompact(level uint16) error {
+	if err := s.m.LevelCompact(level, 1); err != nil {
+		return err
+	}
+	s.m.Wait()
+	return nil
+}
+
+// Rows reads every row of every data file of the measurement, file by file (no merge, no
+// de-duplication: what a column-store scan sees), and lists the files.
+func (s *VerifColStore) Rows() (rows []VerifCSRow, files []string, err error) {
+	s.m.mu.RLock()
+	fs, ok := s.m.CSFiles[verifCSMst]
+	s.m.mu.RUnlock()
+	if !ok || fs == nil {
+		return nil, nil, nil
+	}
+	for _, f := range fs.files {
+		files = append(files, filepath.Base(f.Path()))
+		n := int(f.MetaIndexItemNum())
+		for i := 0; i < n; i++ {
+			mi, e := f.MetaIndexAt(i)
+			if e != nil {
+				return nil, files, e
+			}
+			cms, e := f.ReadChunkMetaData(i, mi, nil, fileops.IO_PRIORITY_LOW_READ)
+			if e != nil {
+				return nil, files, e
+			}
+			for j := range cms {
+				cm := &cms[j]
+				for sg := 0; sg < int(cm.segCount); sg++ {
+					rec := record.NewRecordBuilder(verifCSSchema)
+					rec, e = f.ReadAt(cm, sg, rec, NewReadContext(true), fileops.IO_PRIORITY_LOW_READ)
+					if e != nil {
+						return nil, files, e
+					}
+					if rec == nil {
+						continue
+					}
+					vs := rec.Column(1).IntegerValues()
+					ks := rec.Column(4).IntegerValues()
+					ts := rec.Times()
+					for r := 0; r < rec.RowNums(); r++ {
+						rows = append(rows, VerifCSRow{K: ks[r], V: vs[r], T: ts[r]})
+					}
+				}
+			}
+		}
+	}
+	return rows, files, nil
+}
+
+// Close closes the store.
+func (s *VerifColStore) Close() error { return s.m.Close() }
